@@ -4,6 +4,8 @@ from __future__ import annotations
 from typing import Callable, Dict, List
 
 from . import rules_algebra as RA
+from . import rules_kernels as RK
+from . import rules_poly as RP
 from .report import Ctx
 
 TRUSTED = [
@@ -22,6 +24,8 @@ def c05(ctx: Ctx) -> None:
 
 def c01(ctx: Ctx) -> None:
     RA.rule_soundness(ctx, RA.POLY, ["compose"])
+    RK.rule_term_kernels(ctx, ["multiply", "add", "remove", "substitute", "isolate"])
+    RP.rule_dispatcher(ctx)
     RA.rule_forwarding(ctx)
     RA.rule_default_orders(ctx)
 
@@ -53,11 +57,65 @@ def c15(ctx: Ctx) -> None:
 
 
 def c16(ctx: Ctx) -> None:
+    RK.rule_term_kernels(ctx, ["rename", "remove", "copy"])
     RA.rule_rename(ctx, RA.GENERIC)
     RA.rule_rename(ctx, RA.POLY)
 
 
+def c04(ctx: Ctx) -> None:
+    P = RP.PTL
+    RP.rule_dispatcher(ctx)
+    RP.rule_transform(ctx)
+    RP.rule_relax_tail(ctx)
+    RP.rule_refine_wrapper(ctx)
+    RP.rule_decline_discipline(ctx)
+    RA.rule_default_orders(ctx)
+    for k in (P + "_tactic_2", P + "_get_tlp_context"):
+        RP.rule_status_table(ctx, k)
+    RP.rule_polarity(ctx, P + "_tactic_2", "refine", True, "constant-decrement")
+    RP.rule_polarity(ctx, P + "_get_tlp_context", "refine", True, "none")
+    RP.rule_tactic4_sign(ctx)
+    RK.rule_term_kernels(ctx, ["multiply", "add", "remove", "substitute", "isolate", "copy"])
+    RP.rule_lp_bounds(ctx)
+
+
+def c07(ctx: Ctx) -> None:
+    P = RP.PTL
+    RP.rule_status_table(ctx, P + "reduce_polytope")
+    RP.rule_lp_compare(ctx, P + "reduce_polytope", tolerance_rule=False, require_boundary=False)
+    RP.rule_lp_objective(ctx, P + "reduce_polytope")
+    RP.rule_simplify_wiring(ctx)
+    RP.rule_polytope_roundtrip(ctx)
+    RA.rule_constructor(ctx, RA.POLY)
+    RP.rule_lp_bounds(ctx)
+
+
+def c11(ctx: Ctx) -> None:
+    P = RP.PTL
+    RP.rule_contains_behavior(ctx)
+    RK.rule_term_kernels(ctx, ["evaluate", "substitute", "multiply", "add", "remove"])
+    RP.rule_status_table(ctx, P + "is_polytope_empty")
+    RP.rule_lp_bounds(ctx)
+
+
+def c12(ctx: Ctx) -> None:
+    P = RP.PTL
+    RP.rule_status_table(ctx, P + "optimize")
+    RP.rule_polarity(ctx, P + "optimize", "maximize", True, "return")
+    RP.rule_get_variable_bounds(ctx)
+    RP.rule_lp_bounds(ctx)
+
+
 def c03(ctx: Ctx) -> None:
+    P = RP.PTL
+    RP.rule_refines_order(ctx)
+    RP.rule_emptiness_precheck(ctx)
+    RP.rule_status_table(ctx, P + "verify_polytope_containment")
+    RP.rule_status_table(ctx, P + "is_polytope_empty")
+    RP.rule_lp_compare(ctx, P + "verify_polytope_containment")
+    RP.rule_lp_objective(ctx, P + "verify_polytope_containment")
+    RP.rule_lp_bounds(ctx)
+    RA.rule_tl_operators(ctx)
     RA.rule_refines_shape(ctx, RA.GENERIC, "refines", RA.EXPECTED_REFINES, True)
     RA.rule_refines_shape(ctx, RA.GENERIC, "__le__", RA.EXPECTED_REFINES, True)
     RA.rule_refines_shape(ctx, RA.GENERIC, "contains_environment", RA.EXPECTED_ENV, False)
@@ -85,7 +143,7 @@ def run_property(ctx: Ctx) -> None:
     spec = PROPS[ctx.prop]
     spec["fn"](ctx)
 
-_tmp = {"C01": c01, "C02": c02, "C03": c03, "C06": c06, "C08": c08, "C15": c15, "C16": c16}
+_tmp = {"C01": c01, "C02": c02, "C03": c03, "C04": c04, "C06": c06, "C07": c07, "C08": c08, "C11": c11, "C12": c12, "C15": c15, "C16": c16}
 for _k, _f in _tmp.items():
     PROPS[_k] = {"fn": _f, "level": "other", "explanation": "tbd", "assumptions": []}
 
